@@ -14,7 +14,7 @@ LEVEL = "model_checking"
 CODE = ["yowsup/axolotl/store/sqlite/liteidentitykeystore.py:isTrustedIdentity/saveIdentity", "yowsup/axolotl/manager.py:create_session/trust_identity/encrypt/decrypt_pkmsg",
         "yowsup/layers/axolotl/layer_base.py:getKeysFor", "yowsup/layers/axolotl/layer_receive.py:handleEncMessage (untrusted branch)", "yowsup/layers/axolotl/layer_send.py:on_get_keys_process_errors"]
 BOUNDS = {"quick": "all histories of <= 3 events over {bundle A, bundle B, first message A, first message B, outgoing message, restart} x auto-trust on/off, 3 parties",
-          "thorough": "histories of <= 4 events"}
+          "thorough": "histories of <= 5 events"}
 OUTSIDE = ["the ratchet internals of python-axolotl (real, concrete)", "more than one contact changing identity at once", "histories longer than the bound"]
 ASSUMPTIONS = ["the contact's two identities are two real key stores generated per path",
                "random message padding fixed to 1 byte (python-axolotl's AESCipher cannot round-trip block-aligned plaintext: external library defect, see DESIGN.md)"]
@@ -225,7 +225,7 @@ def finding_key(case, label, values, where):
 
 
 def cases(tier):
-    n = 3 if tier == "quick" else 4
+    n = 3 if tier == "quick" else 5
     cs = []
     # split by first event for parallelism
     for first in ("bundle-A", "first-message-A", "bundle-B", "first-message-B"):
